@@ -160,7 +160,8 @@ def _pin_worker():
         cpus = sorted(os.sched_getaffinity(0))
         ident = multiprocessing.current_process()._identity
         k = (ident[0] - 1) if ident else 0
-        os.sched_setaffinity(0, {cpus[k % len(cpus)]})
+        # offset by the parent's pid so that concurrent runs do not pile onto the same CPUs
+        os.sched_setaffinity(0, {cpus[(k + os.getppid() * 5) % len(cpus)]})
     except Exception:
         pass
 
